@@ -25,7 +25,7 @@ use crate::budget::{BudgetEnforcer, EnforcingPolicy};
 use crate::buffered_input::{ChunkedChars, buffered_input_from_reader_with_limit};
 use crate::de::{AliasLimits, Budget, Error, Ev, Events, Location};
 use crate::de_error::budget_error;
-use crate::location::location_from_span;
+use crate::location::{location_from_span, trim_quoted_scalar_span};
 use crate::options::BudgetReportCallback;
 use crate::tags::SfTag;
 use saphyr_parser::{BufferedInput, Event, Parser, ScalarStyle, ScanError, Span, StrInput};
@@ -331,6 +331,12 @@ impl<'a> LiveEvents<'a> {
 
             match raw {
                 Event::Scalar(val, style, anchor_id, tag) => {
+                    let location = match (self.input, style) {
+                        (Some(input), ScalarStyle::SingleQuoted | ScalarStyle::DoubleQuoted) => {
+                            trim_quoted_scalar_span(location, input)
+                        }
+                        _ => location,
+                    };
                     if matches!(style, ScalarStyle::Folded)
                         && span.start.col() == 0
                         && !val.trim().is_empty()
